@@ -10,7 +10,7 @@ from .avm.sym import Bounds, SymAVM
 from .common import from_json, to_json
 from .recipe.build import compile_recipe, reset_pyteal_state
 from .recipe.ref import RefEval
-from .teal.parse import TealSyntaxError, check_program, parse
+from .teal.parse import TealSyntaxError, blocking_complaints, check_program, parse
 from . import tv
 
 PYTEAL_ERRORS = ("TealInputError", "TealCompileError", "TealTypeError", "TealInternalError",
@@ -72,7 +72,7 @@ def tv_recipe_job(job: Dict[str, Any]) -> Dict[str, Any]:
         out["complaints"] = ["unparsable: %s" % e]
         out["teal"] = teal
         return out
-    out["complaints"] = check_program(prog, rec["mode"])
+    out["complaints"] = blocking_complaints(prog, rec["mode"])
     out["teal_lines"] = len(prog.instrs)
     if out["complaints"]:
         out["teal"] = teal
